@@ -26,7 +26,12 @@ where
   ) -> Subscription<'a> {
     let unsub_observer = observer.clone();
     let issub_observer = observer.clone();
-    self.source.call(observer.clone());
+    // an observer that has already ended (for instance because an input
+    // subscribed just before completed the whole stream) must not start
+    // another source
+    if observer.is_subscribed() {
+      self.source.call(observer.clone());
+    }
     Subscription::new(
       move || {
         unsub_observer.unsubscribe();
